@@ -74,7 +74,7 @@ GLUE = {
  "C05": " Glue on the MIR: the per-cell closure of Folded::from_spectrum decides from the index sum in the spectrum's own shape and keeps nothing between calls.",
  "C06": " Glue on the MIR: harmonic / p_harmonic are the sums of the first n-1 terms; binomial's structure; f2/f3/f4/Fst/pi_xy kernels for all sizes.",
  "C07": " Glue on the MIR: the read builder hands exactly the bytes read to the detected format's reader; the write builder hands the caller's writer itself to one format writer with its own precision.",
- "C08": " Glue on the MIR: both genotype readers convert exactly the record's decoded GT vector with this conversion; read_site passes a reader error on.",
+ "C08": " Glue on the MIR: both genotype readers convert exactly the record's decoded GT vector with this conversion.",
  "C11": " Glue on the MIR: PartialProjection and site::Reader carry no state besides their per-record scratch, read_site consumes exactly one record per call (history independence, with native replays).",
  "C13": " If View::run has a form the model does not recognise, the statement is run against the built binary (all option subsets on eleven shapes) and only a failing run is a violation.",
  "C18": " Glue on the MIR: write::Builder hands the caller's writer itself (no intermediate buffer) to the format writer; a deviation is replayed with a sink failing at every offset.",
